@@ -187,7 +187,12 @@ struct Exec {
         v.detail = detail;
         v.event = cur_event;
         v.diag = std::move(diag);
-        if (!derived_prop.empty() && prop != derived_prop) {
+        // what only goes wrong after a decode (or with static offsets) is
+        // C13's (C12's) when that property, or none, is the focus; under
+        // another focus - a plan borrowed from the C12 / C13 profile - a
+        // violation of the focus property's own oracle stays its own
+        if (!derived_prop.empty() && prop != derived_prop &&
+            (opts.focus.empty() || opts.focus == derived_prop)) {
             if (!baseline_keys.count(v.key())) {
                 v.oracle = derived_tag + "-" + prop + "-" + oracle;
                 v.prop = derived_prop;
